@@ -19,7 +19,10 @@ import (
 	"encoding/json"
 	"fmt"
 	"os"
+	"regexp"
+	"runtime/debug"
 	"sort"
+	"strings"
 
 	"github.com/DDP-Projekt/Kompilierer/src/ast"
 	"github.com/DDP-Projekt/Kompilierer/src/ddperror"
@@ -54,6 +57,7 @@ type Mod struct {
 
 type Obs struct {
 	Panic   string `json:"panic,omitempty"`
+	Frames  []string `json:"panic_frames,omitempty"` // innermost frames inside the repository
 	Err     string `json:"err,omitempty"`
 	Nil     bool   `json:"nil_module"`
 	Faulty  bool   `json:"faulty"`
@@ -98,6 +102,15 @@ func once(r Req) (o Obs) {
 		defer func() {
 			if rec := recover(); rec != nil {
 				o.Panic = fmt.Sprint(rec)
+				stack := string(debug.Stack())
+				if pe, ok := rec.(*parser.ParserError); ok {
+					stack = string(pe.StackTrace)
+					o.Panic = pe.Msg
+					if pe.Err != nil {
+						o.Panic = pe.Err.Error()
+					}
+				}
+				o.Frames = repoFrames(stack)
 				if len(o.Panic) > 600 {
 					o.Panic = o.Panic[:600]
 				}
@@ -136,6 +149,24 @@ func once(r Req) (o Obs) {
 	}
 	sort.Slice(o.Modules, func(i, j int) bool { return o.Modules[i].Path < o.Modules[j].Path })
 	return o
+}
+
+var frameRe = regexp.MustCompile(`/(src/(?:parser|ast|scanner|ddptypes|ddperror|token|compiler|ddppath)[A-Za-z0-9_/]*\.go):(\d+)`)
+
+// innermost frames of a stack trace that lie inside the repository (skipping panic plumbing)
+func repoFrames(stack string) []string {
+	var out []string
+	for _, m := range frameRe.FindAllStringSubmatch(stack, -1) {
+		f := m[1] + ":" + m[2]
+		if strings.Contains(f, "parser/error.go") || strings.Contains(f, "parser/interface.go") || strings.Contains(f, "ast/ast.go") {
+			continue
+		}
+		out = append(out, f)
+		if len(out) >= 4 {
+			break
+		}
+	}
+	return out
 }
 
 func key(o Obs) string {
